@@ -26,6 +26,7 @@ __all__ = ("Processor",)
 from abc import ABC, abstractmethod
 from typing import TYPE_CHECKING, Any
 
+from ._leaf_relation import LeafRelation
 from ._marker_relation import MarkerRelation
 from ._materialization import Materialization
 from ._operation_relations import BinaryOperationRelation, UnaryOperationRelation
@@ -172,6 +173,10 @@ class Processor(ABC):
         result: Relation
         payload: Any = None
         match original:
+            case LeafRelation():
+                # A leaf without a payload (e.g. a doomed relation from an
+                # engine whose get_doomed_payload returns None): nothing to do.
+                return original, False
             case Transfer(destination=destination, target=target):
                 # If the result is a trivial relation, just make a new
                 # payload directly in the destination engine.
